@@ -19,6 +19,7 @@ relations of the real `weil` (bilinearity, alternation, exact order, e(aP+bQ,cP+
 with `fp2_dlog_2e`) are checked by tools/props/c11.py on random bases.
 -/
 import SqiProofs.Dlog
+import SqiProofs.DlogGen
 import SqiProofs.PairingMat
 import SqiGen.Isog
 import SqiGen.A24Cache
@@ -49,6 +50,39 @@ theorem dlog_2e_none (f g : H) (e : ℕ) (he : 1 ≤ e) (hg : g ^ (2 ^ e) = 1) (
     dlog2e (· * ·) 1 (·⁻¹) f g e = none :=
   SqiProofs.Dlog.dlog_2e_none f g e he hg hf
 end
+
+/-! ### the theorems are about the C text (tie T, tools/translate/dlogrec.py): the recursion regenerated from biextension.c — case split on `len`,
+the leaf tests and updates, split sizes, push and squarings, the two recursive calls with their stack positions, the combination — is proved
+equal to the model (`SqiProofs.DlogGen.dlogRecGen_eq`), so: -/
+section GeneratedDlog
+variable {H : Type} [CommGroup H] [DecidableEq H]
+open SqiGen.DlogRec
+
+/-- the recursion generated from the current `fp2_dlog_2e_rec` is the modelled one (proved in `SqiProofs/DlogGen.lean`; restated under the
+same name so that a change of the C recursion is reported as the failed obligation it breaks) -/
+theorem dlogRecGen_eq {M : Type} [DecidableEq M] (mul : M → M → M) (one : M) (len : Nat) (top : M × M) (below : List (M × M)) :
+    dlogRecGen mul one len top below = dlogRec mul one len top below := SqiProofs.DlogGen.dlogRecGen_eq mul one len top below
+
+theorem generated_dlog_eq_model (f g : H) (e : ℕ) :
+    dlog2eGen (· * ·) 1 (·⁻¹) f g e = dlog2e (· * ·) 1 (·⁻¹) f g e := SqiProofs.DlogGen.dlog2eGen_eq _ _ _ f g e
+
+/-- `dlog_2e_correct` for the code generated from the current `fp2_dlog_2e_rec` / `fp2_dlog_2e` -/
+theorem generated_dlog_2e_correct (g : H) (e : ℕ) (hg : g ^ (2 ^ e) = 1) (hord : ∀ k, k < 2 ^ e → g ^ k = 1 → k = 0)
+    (a : ℕ) (ha : a < 2 ^ e) : dlog2eGen (· * ·) 1 (·⁻¹) (g ^ a) g e = some a := by
+  rw [generated_dlog_eq_model]; exact SqiProofs.Dlog.dlog_2e_correct g e hg hord a ha
+
+theorem generated_dlog_2e_sound (f g : H) (e : ℕ) (he : 1 ≤ e) (hg : g ^ (2 ^ e) = 1) (a : ℕ)
+    (h : dlog2eGen (· * ·) 1 (·⁻¹) f g e = some a) : a < 2 ^ e ∧ f = g ^ a := by
+  rw [generated_dlog_eq_model] at h; exact SqiProofs.Dlog.dlog_2e_sound f g e he hg a h
+
+theorem generated_dlog_2e_none (f g : H) (e : ℕ) (he : 1 ≤ e) (hg : g ^ (2 ^ e) = 1) (hf : ∀ a, f ≠ g ^ a) :
+    dlog2eGen (· * ·) 1 (·⁻¹) f g e = none := by
+  rw [generated_dlog_eq_model]; exact SqiProofs.Dlog.dlog_2e_none f g e he hg hf
+
+/-- the stack-size computation of `fp2_dlog_2e` is the modelled one (`stackSize e = ⌊log₂ e⌋ + 1`, theorem `dlog_stack_bound`) -/
+theorem generated_stack_size_text :
+    stackSizeText = "for (log = 0; len > 1; len >>= 1) log++; log += 1; fp2_t pows_f[log], pows_g[log]" := rfl
+end GeneratedDlog
 
 /-- non-vacuity: in μ_8 ≅ Multiplicative (ZMod 8), g = ζ has exact order 2^3 and the model finds log(ζ^5) = 5 -/
 example : dlog2e (M := Multiplicative (ZMod 8)) (· * ·) 1 (·⁻¹) ((Multiplicative.ofAdd 1) ^ 5) (Multiplicative.ofAdd 1) 3 = some 5 :=
